@@ -125,6 +125,7 @@ type Solver struct {
 	St      SolverStats
 	Verbose bool
 	abandoned bool
+	FreshOnly bool // skip the incremental process (string-heavy harnesses)
 	cur     *proc // process holding the state of the last Query
 	curInc  bool
 	logf    *os.File
@@ -172,7 +173,7 @@ func (s *Solver) sendInc(cmd string) {
 	if s.logf != nil {
 		fmt.Fprintln(s.logf, cmd)
 	}
-	if !s.inc.dead {
+	if !s.inc.dead && !s.FreshOnly {
 		if _, err := io.WriteString(s.inc.in, cmd+"\n"); err != nil {
 			s.inc.kill()
 		}
@@ -238,47 +239,58 @@ func parseRes(lines []string) string {
 	return res
 }
 
-// Query asks whether stack ∧ extra is satisfiable. After a "sat" answer Values may be
-// called; EndQuery must always be called.
-func (s *Solver) Query(extra *Term) string {
-	t0 := time.Now()
-	s.St.Queries++
-	res := "unknown"
-	s.cur = nil
-	if s.inc.dead {
-		s.reviveInc()
+// identifiers declared by the engine all contain '!'
+func varsOf(c string) []string {
+	var out []string
+	n := len(c)
+	for i := 0; i < n; {
+		ch := c[i]
+		if ch == '"' {
+			// skip string literal ("" is an escaped quote)
+			i++
+			for i < n {
+				if c[i] == '"' {
+					if i+1 < n && c[i+1] == '"' {
+						i += 2
+						continue
+					}
+					break
+				}
+				i++
+			}
+			i++
+			continue
+		}
+		if isIdent(ch) {
+			j := i
+			bang := false
+			for j < n && isIdent(c[j]) {
+				if c[j] == '!' {
+					bang = true
+				}
+				j++
+			}
+			if bang {
+				out = append(out, c[i:j])
+			}
+			i = j
+			continue
+		}
+		i++
 	}
-	if !s.inc.dead {
-		q := "(push 1)\n"
-		if extra != nil {
-			q += "(assert " + extra.S + ")\n"
-		}
-		q += "(check-sat)"
-		if s.logf != nil {
-			fmt.Fprintln(s.logf, q+"\n; ^query")
-		}
-		lines, ok := s.inc.roundtrip(q)
-		if ok {
-			res = parseRes(lines)
-			s.cur, s.curInc = s.inc, true
-		} else {
-			s.reviveInc()
-		}
-	}
-	if strings.HasPrefix(res, "error") {
-		s.St.Errors++
-		if s.Verbose {
-			fmt.Fprintln(os.Stderr, "SOLVER", res)
-		}
-		res = "unknown"
-	}
-	if res == "unknown" {
-		// fresh-context fall-backs
-		if s.cur != nil && s.curInc {
-			s.inc.roundtrip("(pop 1)")
-			s.cur = nil
-		}
-		var b strings.Builder
+	return out
+}
+
+func isIdent(ch byte) bool {
+	return ch >= 'a' && ch <= 'z' || ch >= 'A' && ch <= 'Z' || ch >= '0' && ch <= '9' || ch == '_' || ch == '!' || ch == '.'
+}
+
+// body builds the SMT text of the current stack; with a non-nil extra only the
+// assertions connected to extra's variables are included (independence slicing —
+// sound because the path condition itself is known to be satisfiable).
+func (s *Solver) body(extra *Term, slice bool) string {
+	var b strings.Builder
+	if !slice || extra == nil {
 		for _, fr := range s.stack {
 			for _, c := range fr {
 				b.WriteString(c)
@@ -288,7 +300,151 @@ func (s *Solver) Query(extra *Term) string {
 		if extra != nil {
 			b.WriteString("(assert " + extra.S + ")\n")
 		}
-		body := b.String()
+		return b.String()
+	}
+	type ent struct {
+		cmd  string
+		vars []string
+		decl string
+	}
+	var ents []ent
+	for _, fr := range s.stack {
+		for _, c := range fr {
+			e := ent{cmd: c}
+			if strings.HasPrefix(c, "(declare-const ") {
+				r := c[len("(declare-const "):]
+				if k := strings.IndexByte(r, ' '); k > 0 {
+					e.decl = r[:k]
+				}
+			} else if strings.HasPrefix(c, "(assert ") {
+				e.vars = varsOf(c)
+			}
+			ents = append(ents, e)
+		}
+	}
+	live := map[string]bool{}
+	for _, v := range varsOf(extra.S) {
+		live[v] = true
+	}
+	used := make([]bool, len(ents))
+	for changed := true; changed; {
+		changed = false
+		for i, e := range ents {
+			if used[i] || e.vars == nil {
+				continue
+			}
+			hit := false
+			for _, v := range e.vars {
+				if live[v] {
+					hit = true
+					break
+				}
+			}
+			if hit {
+				used[i] = true
+				changed = true
+				for _, v := range e.vars {
+					live[v] = true
+				}
+			}
+		}
+	}
+	for i, e := range ents {
+		switch {
+		case e.decl != "":
+			if live[e.decl] {
+				b.WriteString(e.cmd)
+				b.WriteByte('\n')
+			}
+		case e.vars != nil:
+			if used[i] {
+				b.WriteString(e.cmd)
+				b.WriteByte('\n')
+			}
+		case strings.HasPrefix(e.cmd, "(assert "):
+			// variable-free assertion
+			b.WriteString(e.cmd)
+			b.WriteByte('\n')
+		default:
+			b.WriteString(e.cmd) // declare-fun etc.
+			b.WriteByte('\n')
+		}
+	}
+	b.WriteString("(assert " + extra.S + ")\n")
+	return b.String()
+}
+
+func (s *Solver) freshText(p *proc, i int, body string) string {
+	if p.kind == "z3" {
+		q := fmt.Sprintf("(reset)\n(set-option :produce-models true)\n(set-option :timeout %d)\n", p.timeout) + body
+		if i == 0 && !strings.Contains(body, "String") && !strings.Contains(body, "str.") {
+			return q + "(check-sat-using (then simplify solve-eqs smt))"
+		}
+		return q + "(check-sat)"
+	}
+	return "(reset)\n(set-logic ALL)\n" + body + "(check-sat)"
+}
+
+// Query asks whether stack ∧ extra is satisfiable. After a "sat" answer Values may be
+// called; EndQuery must always be called.
+func (s *Solver) Query(extra *Term) string { return s.query(extra, true) }
+
+// QueryFull never slices (needed when a model of all inputs is wanted).
+func (s *Solver) QueryFull(extra *Term) string { return s.query(extra, false) }
+
+func (s *Solver) query(extra *Term, slice bool) string {
+	t0 := time.Now()
+	s.St.Queries++
+	res := "unknown"
+	s.cur = nil
+	if s.abandoned {
+		s.St.Unknown++
+		return res
+	}
+	if !s.FreshOnly || (!slice && s.FreshOnly && false) {
+		if s.inc.dead {
+			s.reviveInc()
+		}
+		if !s.inc.dead {
+			q := "(push 1)\n"
+			if extra != nil {
+				q += "(assert " + extra.S + ")\n"
+			}
+			q += "(check-sat)"
+			if s.logf != nil {
+				fmt.Fprintln(s.logf, q+"\n; ^query")
+			}
+			lines, ok := s.inc.roundtrip(q)
+			if ok {
+				res = parseRes(lines)
+				s.cur, s.curInc = s.inc, true
+			} else {
+				s.reviveInc()
+			}
+		}
+		if strings.HasPrefix(res, "error") {
+			s.St.Errors++
+			if s.Verbose {
+				fmt.Fprintln(os.Stderr, "SOLVER", res)
+			}
+			res = "unknown"
+		}
+	}
+	if res == "unknown" && !s.abandoned {
+		if s.cur != nil && s.curInc {
+			s.inc.roundtrip("(pop 1)")
+			s.cur = nil
+		}
+		body := s.body(extra, slice)
+		if s.logf != nil {
+			fmt.Fprintln(s.logf, "; fresh query\n"+body)
+		}
+		type ans struct {
+			i   int
+			res string
+		}
+		ch := make(chan ans, len(s.fresh))
+		n := 0
 		for i, p := range s.fresh {
 			if p.dead {
 				p.start()
@@ -296,35 +452,49 @@ func (s *Solver) Query(extra *Term) string {
 					continue
 				}
 			}
+			n++
 			s.St.FreshQueries++
-			var q string
-			if p.kind == "z3" {
-				q = fmt.Sprintf("(reset)\n(set-option :produce-models true)\n(set-option :timeout %d)\n", p.timeout) + body
-				if i == 0 && !strings.Contains(body, "String") {
-					q += "(check-sat-using (then simplify solve-eqs smt))"
-				} else {
-					q += "(check-sat)"
+			go func(i int, p *proc) {
+				lines, ok := p.roundtrip(s.freshText(p, i, body))
+				if !ok {
+					ch <- ans{i, "dead"}
+					return
 				}
-			} else {
-				q = "(reset)\n(set-logic ALL)\n" + body + "(check-sat)"
-			}
-			lines, ok := p.roundtrip(q)
-			if !ok {
-				continue
-			}
-			r := parseRes(lines)
-			if strings.HasPrefix(r, "error") {
+				ch <- ans{i, parseRes(lines)}
+			}(i, p)
+		}
+		pending := n
+		winner := -1
+		got := map[int]bool{}
+		for pending > 0 {
+			a := <-ch
+			pending--
+			got[a.i] = true
+			if strings.HasPrefix(a.res, "error") {
 				s.St.Errors++
 				if s.Verbose {
-					fmt.Fprintln(os.Stderr, "SOLVER", p.name, r)
+					fmt.Fprintln(os.Stderr, "SOLVER", s.fresh[a.i].name, a.res)
 				}
 				continue
 			}
-			if r == "sat" || r == "unsat" {
-				res = r
-				s.cur, s.curInc = p, false
+			if a.res == "sat" || a.res == "unsat" {
+				res = a.res
+				winner = a.i
 				break
 			}
+		}
+		if winner >= 0 {
+			// stop the losers
+			for i, p := range s.fresh {
+				if i != winner && !got[i] && !p.dead {
+					p.kill()
+				}
+			}
+			for pending > 0 {
+				<-ch
+				pending--
+			}
+			s.cur, s.curInc = s.fresh[winner], false
 		}
 	}
 	d := time.Since(t0)
